@@ -2,7 +2,7 @@
 import importlib
 
 from symx import E, Case
-from harness.common import call, newdict, event_map
+from harness.common import call, newdict, event_map, command_classes
 from spec import iec_tables as T
 
 import dali.frame as F
@@ -327,7 +327,7 @@ def h_inventory(ctx):
     rows = {(T.MODULE_OF_PART[r[0]], r[1]) for r in T.ROWS}
     rows |= {(T.MODULE_OF_PART[e[0]], e[1]) for e in T.EVENTS}
     missing = []
-    for c in C.Command._commands:
+    for c in command_classes():
         if c.__name__ in T.NOT_IN_TABLES:
             continue
         if (c.__module__, c.__name__) not in rows:
@@ -336,7 +336,7 @@ def h_inventory(ctx):
               key="inventory/unchecked:" + ",".join(missing[:3]))
     dup = len(T.ROWS) - len({(r[0], r[1]) for r in T.ROWS})
     ctx.prove(dup == 0, "duplicate table rows", key="inventory/dup")
-    return "rows=%d events=%d classes=%d" % (len(T.ROWS), len(T.EVENTS), len(C.Command._commands))
+    return "rows=%d events=%d classes=%d" % (len(T.ROWS), len(T.EVENTS), len(command_classes()))
 
 
 def cases(tier):
